@@ -2,9 +2,6 @@ import Canopy.Proof.DexFrame
 /-! Holding pool: what goes in with a DEX order/deposit, what goes out with receipts and refunds (C20). Core Lean only. -/
 namespace Canopy.Dex
 
-/-- Σ amounts of the orders and deposits of a batch -/
-def Batch.pending (b : Batch) : Nat := (b.orders.map (·.amount)).sum + (b.deposits.map (·.amount)).sum
-
 def holdAmt (s : State) (c : Nat) : Nat := (getPool s (holdingId c)).amount
 
 theorem holdingId_ne_liquidityId {c : Nat} (h : c ≤ maxChainId) : holdingId c ≠ liquidityId c := by
